@@ -42,9 +42,76 @@ func isMuLock(stmt ast.Stmt) bool {
 	return false
 }
 
+// lockCall recognises the statement X.Lock() or X.RLock() without arguments
+// and returns X and the name of the matching try method.
+func lockCall(stmt ast.Stmt) (ast.Expr, string, string) {
+	es, ok := stmt.(*ast.ExprStmt)
+	if !ok {
+		return nil, "", ""
+	}
+	call, ok := es.X.(*ast.CallExpr)
+	if !ok || len(call.Args) != 0 {
+		return nil, "", ""
+	}
+	sel, ok := call.Fun.(*ast.SelectorExpr)
+	if !ok {
+		return nil, "", ""
+	}
+	switch sel.Sel.Name {
+	case "Lock":
+		return sel.X, "TryLock", "Lock"
+	case "RLock":
+		return sel.X, "TryRLock", "RLock"
+	}
+	return nil, "", ""
+}
+
+// spinRoot: in the root package a lock statement becomes
+//
+//	for !X.TryLock() { simYield("lock.spin", where) }
+//
+// so that a goroutine that has to wait for a mutex parks at a yield point
+// (a durable block the scheduler sees) instead of inside sync.Mutex, which
+// testing/synctest does not treat as durable: a library that holds a mutex
+// across a yield point - correct, if unusual - can then still be simulated.
+func spinRoot(x ast.Expr, try, where string) ast.Stmt {
+	return &ast.ForStmt{
+		Cond: &ast.UnaryExpr{Op: token.NOT, X: &ast.CallExpr{Fun: &ast.SelectorExpr{X: x, Sel: ast.NewIdent(try)}}},
+		Body: &ast.BlockStmt{List: []ast.Stmt{&ast.ExprStmt{X: &ast.CallExpr{
+			Fun:  ast.NewIdent("simYield"),
+			Args: []ast.Expr{&ast.BasicLit{Kind: token.STRING, Value: `"lock.spin"`}, &ast.BasicLit{Kind: token.STRING, Value: fmt.Sprintf("%q", where)}},
+		}}}},
+	}
+}
+
+// spinSub: in the other packages of the module, which have no yield function
+// of their own, the statement becomes verifkeylock.Spin(X.TryLock, X.Lock,
+// where); Spin lives in the simulator's stand-in for jirenius/keylock.
+func spinSub(x ast.Expr, try, lock, where string) ast.Stmt {
+	return &ast.ExprStmt{X: &ast.CallExpr{
+		Fun: &ast.SelectorExpr{X: ast.NewIdent("verifkeylock"), Sel: ast.NewIdent("Spin")},
+		Args: []ast.Expr{&ast.SelectorExpr{X: x, Sel: ast.NewIdent(try)}, &ast.SelectorExpr{X: x, Sel: ast.NewIdent(lock)},
+			&ast.BasicLit{Kind: token.STRING, Value: fmt.Sprintf("%q", where)}},
+	}}
+}
+
+var subPackage bool // rewriting a package below the root
+
 func rewriteList(fset *token.FileSet, file string, list []ast.Stmt, n *int) []ast.Stmt {
 	var out []ast.Stmt
 	for _, st := range list {
+		if x, try, lock := lockCall(st); x != nil && subPackage {
+			pos := fset.Position(st.Pos())
+			out = append(out, spinSub(x, try, lock, fmt.Sprintf("%s:%d", file, pos.Line)))
+			*n++
+			continue
+		}
+		if x, try, _ := lockCall(st); x != nil && !isMuLock(st) {
+			pos := fset.Position(st.Pos())
+			out = append(out, spinRoot(x, try, fmt.Sprintf("%s:%d", file, pos.Line)))
+			*n++
+			continue
+		}
 		if isMuLock(st) {
 			pos := fset.Position(st.Pos())
 			arg := fmt.Sprintf("%s:%d", file, pos.Line)
@@ -53,9 +120,12 @@ func rewriteList(fset *token.FileSet, file string, list []ast.Stmt, n *int) []as
 				Args: []ast.Expr{&ast.BasicLit{Kind: token.STRING, Value: `"auto.lock"`}, &ast.BasicLit{Kind: token.STRING, Value: fmt.Sprintf("%q", arg)}},
 			}})
 			*n++
+			x, try, _ := lockCall(st)
+			out = append(out, spinRoot(x, try, arg))
+			continue
 		}
 		out = append(out, st)
-		if _, ok := st.(*ast.GoStmt); ok {
+		if _, ok := st.(*ast.GoStmt); ok && !subPackage {
 			// and a yield point right after every go statement: the
 			// goroutine exists, its creator has not moved on
 			pos := fset.Position(st.Pos())
@@ -128,7 +198,16 @@ func main() {
 		patchBadger(os.Args[2])
 		return
 	}
-	dir := os.Args[1]
+	root := os.Args[1]
+	total := 0
+	for _, sub := range []string{"", "store", "store/mockstore", "store/badgerstore", "middleware", "middleware/resbadger", "resprot", "logger"} {
+		total += rewriteDir(filepath.Join(root, sub), sub != "")
+	}
+	fmt.Printf("autoyield: %d yield points inserted\n", total)
+}
+
+func rewriteDir(dir string, sub bool) int {
+	subPackage = sub
 	matches, _ := filepath.Glob(filepath.Join(dir, "*.go"))
 	total := 0
 	for _, path := range matches {
@@ -157,6 +236,12 @@ func main() {
 		if n == 0 {
 			continue
 		}
+		if sub {
+			// import the simulator's keylock stand-in under a name of its own
+			spec := &ast.ImportSpec{Name: ast.NewIdent("verifkeylock"), Path: &ast.BasicLit{Kind: token.STRING, Value: `"github.com/jirenius/keylock"`}}
+			f.Decls = append([]ast.Decl{&ast.GenDecl{Tok: token.IMPORT, Specs: []ast.Spec{spec}}}, f.Decls...)
+			f.Imports = append(f.Imports, spec)
+		}
 		var buf bytes.Buffer
 		if err := format.Node(&buf, fset, f); err != nil {
 			fmt.Fprintln(os.Stderr, "autoyield:", err)
@@ -168,5 +253,5 @@ func main() {
 		}
 		total += n
 	}
-	fmt.Printf("autoyield: %d yield points inserted\n", total)
+	return total
 }
